@@ -90,3 +90,61 @@ package weshnet
 //@   safety
 //@   requires m != nil && m.headers != nil
 //@   ensures [C15.item.counter] result == m.headers.Counter
+
+//@ # ======================= C16: connectedness tracker =======================
+//@ # Discipline: muState is the lock of every group's notify (waiters check and sleep under the
+//@ # lock that guards every status change and the broadcast that follows it); no nested second lock.
+//@ pred cmOK(m) = m != nil && m.peerState != nil && m.groupState != nil
+//@     && (forall k Bytes {has(m.groupState, k)} :: has(m.groupState, k) ==> m.groupState[k] != nil && m.groupState[k].notify != nil
+//@           && m.groupState[k].notify.L == addr(m.muState) && m.groupState[k].peers != nil && unlocked(addr(m.groupState[k].notify.mu))
+//@           && m.groupState[k].peers != m.peerState)
+//@     && (forall p Bytes {has(m.peerState, p)} :: has(m.peerState, p) ==> m.peerState[p] != nil && m.peerState[p].groups != nil
+//@           && m.peerState[p].groups != m.groupState
+//@           && (forall g Bytes {has(m.peerState[p].groups, g)} :: has(m.peerState[p].groups, g) ==> m.peerState[p].groups[g] != nil
+//@                 && m.peerState[p].groups[g].notify != nil && m.peerState[p].groups[g].notify.L == addr(m.muState)
+//@                 && unlocked(addr(m.peerState[p].groups[g].notify.mu))))
+
+//@ func (*ConnectednessManager).getGroupStatus
+//@   for C16
+//@   requires cmOK(m)
+//@   modifies mapof(m.groupState)
+//@   ensures [C16.cm.group] result != nil && result.notify != nil && result.notify.L == addr(m.muState) && result.peers != nil
+//@     && unlocked(addr(result.notify.mu)) && has(m.groupState, gkey) && m.groupState[gkey] == result
+//@   ensures [C16.cm.group.inv] cmOK(m)
+
+//@ func (*ConnectednessManager).getPeerStatus
+//@   for C16
+//@   requires cmOK(m)
+//@   modifies mapof(m.peerState)
+//@   ensures [C16.cm.peer] result != nil && result.groups != nil && has(m.peerState, peer) && m.peerState[peer] == result
+//@     && (forall g Bytes {has(result.groups, g)} :: has(result.groups, g) ==> result.groups[g] != nil && result.groups[g].notify != nil
+//@           && result.groups[g].notify.L == addr(m.muState) && unlocked(addr(result.groups[g].notify.mu)))
+//@   ensures [C16.cm.peer.inv] cmOK(m)
+
+//@ func (*ConnectednessManager).AssociatePeer
+//@   for C16
+//@   requires cmOK(m) && unlocked(addr(m.muState))
+//@   at (*Notify).Broadcast requires [C16.broadcast-under-L] locked(n.L)
+//@   ensures [C16.cm.associate.unlock] unlocked(addr(m.muState))
+
+//@ func (*ConnectednessManager).UpdateState
+//@   for C16
+//@   requires cmOK(m) && unlocked(addr(m.muState))
+//@   at (*Notify).Broadcast requires [C16.broadcast-under-L] locked(n.L)
+//@   ensures [C16.cm.update.unlock] unlocked(addr(m.muState))
+//@   ensures [C16.cm.update.status] has(m.peerState, peer) && m.peerState[peer].status == update
+//@   loop 0 invariant locked(addr(m.muState)) && has(m.peerState, peer) && m.peerState[peer].status == update && cmOK(m) && sp == m.peerState[peer]
+
+//@ func (*ConnectednessManager).updateStatus
+//@   for C16
+//@   requires cmOK(m) && group != nil && group.peers != nil && current != nil && locked(addr(m.muState))
+//@   modifies mapof(current)
+//@   ensures [C16.cm.updatestatus.lock] locked(addr(m.muState))
+//@   ensures len(result) >= 0
+
+//@ func (*ConnectednessManager).WaitForConnectednessChange
+//@   for C16
+//@   requires cmOK(m) && ctx != nil && current != nil && unlocked(addr(m.muState))
+//@   ensures [C16.cm.wait.unlock] unlocked(addr(m.muState))
+//@   ensures [C16.cm.wait.result] (ret1 ==> len(ret0) > 0) && (!ret1 ==> cancelled(ctx))
+//@   loop 0 invariant locked(addr(m.muState)) && (!ok ==> cancelled(ctx)) && sg != nil && sg.notify != nil && sg.notify.L == addr(m.muState) && unlocked(addr(sg.notify.mu)) && cmOK(m)
